@@ -154,15 +154,22 @@ def gen_scripts(root, K, alphabet=("GO", "GA", "N", "LO", "LA", "RAW", "F"), max
 def script_min_bytes(script, root):
     """smallest valid document for which every op of the script is protocol-following"""
     total = 2
-    stack = ["O" if root == 1 else "A"]
+    # per open container: [kind, number of next/lookup ops so far that did not (yet) need an item]
+    stack = [["O" if root == 1 else "A", 0]]
     for i, op in enumerate(script):
         nxt = script[i + 1] if i + 1 < len(script) else None
         if op in ("N", "F", "FS", "FE", "NE") and stack:
             need = {"GO": 2, "GA": 2, "RAW": 1, "TW": 1}.get(nxt)
+            item = 2 if stack[-1][0] == "O" else 0          # name (empty) in an object
             if need:
-                total += need + (2 if stack[-1] == "O" else 0)
+                # every earlier next in this container must have returned an element as well
+                total += stack[-1][1] * (1 + item)
+                stack[-1][1] = 0
+                total += need + item
+            elif op == "N":
+                stack[-1][1] += 1
         if op in ("GO", "GA") and i > 0:
-            stack.append("O" if op == "GO" else "A")
+            stack.append(["O" if op == "GO" else "A", 0])
         if op in ("LO", "LA") and stack:
             stack.pop()
     return total
@@ -602,7 +609,14 @@ def plan_C07(tier):
         scripts += [["GO", "F", "GO", "LO", "F"], ["GO", "F", "RAW", "F"]]
         shapes_l = [shapes_l[i] for i in (0, 1, 3, 4, 6, 7, 8)]
     for node in shapes_l:
+        kinds = {c.kind for c in node.children}
         for s in scripts:
+            if "GO" in s[1:] and "O" not in kinds:
+                continue
+            if "GA" in s[1:] and "A" not in kinds:
+                continue
+            if ("RAW" in s or "TW" in s) and not (kinds & {"O", "A"}):
+                continue
             q = shape_script_query(7, node, s, "lookup", 1, tight=True, timeout=1500)
             q.mem_gb = 3 if sum(1 for o in s if o in ("F", "FS", "FE")) < 2 else 6
             qs.append(q)
